@@ -324,34 +324,50 @@ func (r *RefEVM) ExpectedContract(addr string) DContract {
 	return dc
 }
 
+// evmEventView renders logs as (address, topics, data) tuples, lower case.
 func evmEventView(logs []*ethtypes.Log, created string) string {
 	var sb strings.Builder
-	if created != "" {
-		fmt.Fprintf(&sb, "contractAddress=%s;", created)
-	}
 	for _, l := range logs {
-		fmt.Fprintf(&sb, "contract=%s;", hex.EncodeToString(l.Address[:]))
-		for i, t := range l.Topics {
-			fmt.Fprintf(&sb, "topic.%d=%s;", i, strings.ToUpper(hex.EncodeToString(t.Bytes())))
+		fmt.Fprintf(&sb, "[%s", hex.EncodeToString(l.Address[:]))
+		for _, t := range l.Topics {
+			fmt.Fprintf(&sb, " t:%s", hex.EncodeToString(t.Bytes()))
 		}
-		if len(l.Data) > 0 {
-			fmt.Fprintf(&sb, "data=%s;", hex.EncodeToString(l.Data))
-		}
-		sb.WriteString("removed=false;")
+		fmt.Fprintf(&sb, " d:%s]", hex.EncodeToString(l.Data))
 	}
 	return sb.String()
 }
 
+// respEvmEventView parses the application's 'evm' event back into the same tuples
+// (attribute names: contract, topic.N, data; everything else is presentation).
 func respEvmEventView(r *abci.ResponseDeliverTx) string {
 	var sb strings.Builder
+	open := false
+	data := ""
+	flush := func() {
+		if open {
+			fmt.Fprintf(&sb, " d:%s]", data)
+			open, data = false, ""
+		}
+	}
 	for _, e := range r.Events {
 		if e.Type != "evm" {
 			continue
 		}
 		for _, a := range e.Attributes {
-			fmt.Fprintf(&sb, "%s=%s;", a.Key, a.Value)
+			k, v := string(a.Key), strings.ToLower(string(a.Value))
+			switch {
+			case k == "contract":
+				flush()
+				fmt.Fprintf(&sb, "[%s", v)
+				open = true
+			case strings.HasPrefix(k, "topic."):
+				fmt.Fprintf(&sb, " t:%s", v)
+			case k == "data":
+				data = v
+			}
 		}
 	}
+	flush()
 	return sb.String()
 }
 
@@ -444,8 +460,15 @@ func (m *Model) applyEVMTx(ws *MState, ti *TxInfo, r *abci.ResponseDeliverTx, h 
 			a.Code = ti.Hash
 		}
 	}
-	if hx(wantRet) != hx(r.Data) {
+	if hx(wantRet) != hx(r.Data) && !(ref.Created != "" && hx(ref.Ret) == hx(r.Data)) {
+		// for a deployment the application answers with the new address (its convention); the deployed code would be fine too
 		issue("C17", "evm-return-data-mismatch", fmt.Sprintf("reference %x, application %x", wantRet, r.Data))
+	}
+	if ref.Created != "" {
+		// the created address must be announced: in the return data or in the event
+		if hx(r.Data) != ref.Created && !strings.Contains(strings.ToUpper(eventsView(r.Events)), strings.ToUpper(hex.EncodeToString([]byte(ref.Created)))) && !strings.Contains(strings.ToUpper(respAttr(r, "contractAddress")), ref.Created) {
+			issue("C17", "evm-created-address-not-reported", fmt.Sprintf("deployment created %s, the response does not name it", ref.Created))
+		}
 	}
 	if ev, rv := evmEventView(ref.Logs, ref.Created), respEvmEventView(r); ev != rv {
 		issue("C17", "evm-logs-mismatch", fmt.Sprintf("reference logs %s, application %s", ev, rv))
@@ -462,4 +485,15 @@ func ref0(to []byte) bool {
 		}
 	}
 	return true
+}
+
+func respAttr(r *abci.ResponseDeliverTx, key string) string {
+	for _, e := range r.Events {
+		for _, a := range e.Attributes {
+			if string(a.Key) == key {
+				return string(a.Value)
+			}
+		}
+	}
+	return ""
 }
